@@ -81,6 +81,9 @@ def judge(res, code, feats, r):
         same_slot = [e for e in layout if int(e["index"], 16) == int(slot_hex, 16)] if slot_hex.startswith("0x") else []
         if any("infinite_type" in json.dumps(e["type"]) for e in same_slot):
             sig += ":slot-has-infinite-type"
+        elif any("infinite_type" in json.dumps(e["type"]) for e in layout):
+            # the cycle runs through several slots: the offsets accumulate in one slot, the cut shows in another
+            sig += ":layout-has-infinite-type"
         res.violation(sig, bad[1], case)
 
 
